@@ -23,6 +23,9 @@ type zzNodeAttr struct {
 	taint  bool
 	tKey   string
 	effect corev1.TaintEffect
+	// optional second taint with the same key and another effect
+	taint2  bool
+	effect2 corev1.TaintEffect
 }
 
 type zzTplAttr struct {
@@ -54,20 +57,25 @@ func zzEligible(n zzNodeAttr, t zzTplAttr) bool {
 			return false
 		}
 	}
-	if n.taint && (n.effect == corev1.TaintEffectNoSchedule || n.effect == corev1.TaintEffectNoExecute) {
-		tolerated := false
-		if t.tolerates == n.tKey {
-			tolerated = true
-		}
-		// tolerations every daemon pod gets: not-ready is tolerated for NoExecute only
-		if n.tKey == "node.kubernetes.io/not-ready" && n.effect == corev1.TaintEffectNoExecute {
-			tolerated = true
-		}
-		if !tolerated {
-			return false
-		}
+	if n.taint && !zzTaintTolerated(n.tKey, n.effect, t) {
+		return false
+	}
+	if n.taint2 && !zzTaintTolerated(n.tKey, n.effect2, t) {
+		return false
 	}
 	return true
+}
+
+// zzTaintTolerated: "has no NoSchedule/NoExecute taint the pod does not tolerate", taint by taint.
+func zzTaintTolerated(key string, effect corev1.TaintEffect, t zzTplAttr) bool {
+	if effect != corev1.TaintEffectNoSchedule && effect != corev1.TaintEffectNoExecute {
+		return true
+	}
+	if t.tolerates == key {
+		return true
+	}
+	// tolerations every daemon pod gets: not-ready is tolerated for NoExecute only
+	return key == "node.kubernetes.io/not-ready" && effect == corev1.TaintEffectNoExecute
 }
 
 // zzTemplateFor applies the template attributes to a replica set.
@@ -98,6 +106,9 @@ func zzNodeFor(i int, a zzNodeAttr) *corev1.Node {
 	}
 	if a.taint {
 		node.Spec.Taints = []corev1.Taint{{Key: a.tKey, Effect: a.effect}}
+		if a.taint2 {
+			node.Spec.Taints = append(node.Spec.Taints, corev1.Taint{Key: a.tKey, Effect: a.effect2})
+		}
 	}
 	return node
 }
@@ -123,6 +134,14 @@ func zzPickNodeAttr(l string) zzNodeAttr {
 			a.effect = corev1.TaintEffectNoExecute
 		default:
 			a.effect = corev1.TaintEffectPreferNoSchedule
+		}
+		// a second taint with the same key and the other hard effect
+		if a.effect != corev1.TaintEffectPreferNoSchedule && nondet.Bool(l+".secondTaintSameKey") {
+			a.taint2 = true
+			a.effect2 = corev1.TaintEffectNoSchedule
+			if a.effect == corev1.TaintEffectNoSchedule {
+				a.effect2 = corev1.TaintEffectNoExecute
+			}
 		}
 	}
 	return a
@@ -171,6 +190,7 @@ func ZZ_C01_eligibility() {
 	nondet.Reach("C01.eligible.rejected-taint", !m0 && a.taint && !tpl.selector && tpl.affinityOp == "")
 	nondet.Reach("C01.eligible.rejected-selector", !m0 && tpl.selector && !a.taint)
 	nondet.Reach("C01.eligible.rejected-affinity", !m0 && !tpl.selector && !a.taint && tpl.affinityOp != "")
+	nondet.Reach("C01.eligible.two-taints-one-tolerated", !m0 && a.taint2 && a.tKey == "node.kubernetes.io/not-ready")
 	nondet.Reach("C01.eligible.prefer-noschedule-ok", m0 && a.taint && a.effect == corev1.TaintEffectPreferNoSchedule && a.tKey == zzLabelKey && tpl.tolerates == "")
 }
 
